@@ -331,7 +331,7 @@ func (*reader).Get
 // every non-head segment non-empty and entirely below the next base (I5); only the last is the head.
 
 pred logWf(l *log) :=
-    l != nil && len(l.readers) >= 1 && len(l.readers) <= 1152921504606846976
+    l != nil && len(l.readers) >= 1
     && (forall i :: 0 <= i && i < len(l.readers) ==> rdWf(l.readers[i]))
     && (forall i, j :: 0 <= i && i < j && j < len(l.readers) ==> l.readers[i] != l.readers[j]
                         && l.readers[i].segment.Offset < l.readers[j].segment.Offset)
@@ -963,10 +963,33 @@ func (*log).OffsetByKey
 pred wOK(w *writer) := w != nil && wrOK(w.messages) && iwOK(w.items)
 pred wClean(w *writer) := !fsDirty[w.messages.Path] && !fsDirty[fPath[w.items.f]]
 
+// structural part of INV over the real fields (C01/C02/C12): the segment list is non-empty, bases strictly
+// increase, only the last reader is a head, and a writable log's writer owns the last reader
+pred wrS(w *writer) :=
+    w != nil && w.index != nil && w.reader != nil && w.messages != nil && w.messages.pos >= 0
+    && w.reader.head && w.reader.segment == w.segment && w.segment.Offset >= 0
+    && wfItems(w.index.items, w.index.nextOffset) && w.index.nextOffset >= w.segment.Offset
+    && (len(w.index.items) > 0 ==> w.index.items[0].Offset >= w.segment.Offset)
+
+pred structWf(l *log) :=
+    l != nil && len(l.readers) >= 1
+    && (forall i :: 0 <= i && i < len(l.readers) ==> l.readers[i] != nil && l.readers[i].segment.Offset >= 0)
+    && (forall i, j :: 0 <= i && i < j && j < len(l.readers) ==> l.readers[i] != l.readers[j]
+                        && l.readers[i].segment.Offset < l.readers[j].segment.Offset)
+    && (forall i :: 0 <= i && i < len(l.readers) - 1 ==> !l.readers[i].head)
+    && (!l.opts.Readonly ==> wrS(l.writer) && l.writer.reader == l.readers[len(l.readers)-1])
+
 // ASSUMED (I/O): opens or creates the head segment's files
 func openWriter
     flags assumed
     assigns fPath, fsExists, fsDirty, fsContent
+    ensures ret1 == nil ==> ret0.segment == seg && fresh(ret0.reader) && fresh(ret0.index) && ret0.reader.head && ret0.reader.segment == seg
+                            && ret0.messages != nil && ret0.messages.pos >= 0
+                            && wfItems(ret0.index.items, ret0.index.nextOffset) && ret0.index.nextOffset >= seg.Offset
+                            && (len(ret0.index.items) > 0 ==> ret0.index.items[0].Offset >= seg.Offset)
+                            && len(ret0.index.items) <= 1152921504606846976 - 1048576
+    // a segment file that did not exist before starts empty at its base offset
+    ensures ret1 == nil && !old(fsExists[seg.Log]) ==> len(ret0.index.items) == 0 && ret0.index.nextOffset == seg.Offset
     ensures ret1 == nil ==> ret0 != nil && fresh(ret0) && wOK(ret0) && ret0.index != nil && ret0.reader != nil
     ensures ret1 == nil ==> ret0.segment == seg && fsExists[seg.Log]
     ensures forall g *os.File :: !fresh(g) ==> fPath[g] == old(fPath[g])
@@ -1067,8 +1090,12 @@ func (*writer).Close
     flags locks lockonly noframe
     requires[locks] rdLocksFree()
 func (*writer).ReopenReader
-    flags locks lockonly noframe
+    flags locks only_locks only_struct noframe
     requires[locks] ixLocksFree()
+    requires[struct_ok] w.index != nil
+    // the old head becomes an ordinary (non-head) reader of the same segment
+    ensures[struct_reader] ret0 != nil && fresh(ret0) && !ret0.head && ret0.segment == w.segment
+    ensures[struct_next]   ret1 == w.index.nextOffset && ret2 == w.index.nextTime
 func (*writer).Delete
     flags locks only_locks only_sync only_order only_crash noframe
     requires[sync_src] rs != nil && !fsDirty[rs.Log] && !fsDirty[rs.Index]
@@ -1081,9 +1108,22 @@ func (*writer).Delete
     assert[crash_nodup] distinct4(rs.Log, rs.Index, nseg.Log, nseg.Index) && nseg.Log != w.segment.Log ==> !(fsExists[nseg.Log] && fsExists[w.segment.Log]) at call (Segment).Remove 4
     requires[locks] rdLocksFree() && ixLocksFree()
 func (*log).Publish
-    flags locks only_locks only_sync noframe
+    flags locks only_locks only_sync only_struct noframe
     requires[sync_ok] !l.opts.Readonly ==> wOK(l.writer)
+    requires[struct_ok] structWf(l) && len(msgs) <= 1048576
+    // machine bound (not part of INV): slice lengths stay far below 2^63
+    requires[struct_small] len(l.readers) < 1152921504606846976 && (!l.opts.Readonly ==> len(l.writer.index.items) <= 1152921504606846976 - 1048576)
     assigns all
+    // C19: a read-only handle rejects Publish and changes nothing
+    ensures[struct_readonly] l.opts.Readonly ==> ret0 == OffsetInvalid && ret1 == ErrReadonly
+    // C01/C02: the structural invariant survives, also across rollover (the new segment is named after
+    // NextOffset, which lies above the old head's base because only a non-empty head is rolled over)
+    ensures[struct_wf]      structWf(l)
+    // C02: the batch gets the consecutive offsets ending at the returned offset; NextOffset is the returned offset
+    ensures[struct_offsets] ret1 == nil ==> (forall j :: 0 <= j && j < len(msgs) ==> msgs[j].Offset == ret0 - len(msgs) + j)
+                            && l.writer.index.nextOffset == ret0
+    ensures[struct_dense]   ret1 == nil && !old(l.writer.messages.pos > l.opts.Rollover) ==> ret0 == old(l.writer.index.nextOffset) + len(msgs)
+    ensures[struct_failed]  ret1 != nil ==> ret0 == OffsetInvalid
     ensures[sync_autosync] l.opts.AutoSync && !l.opts.Readonly && ret1 == nil ==> wClean(l.writer)
     ensures[sync_ok] !l.opts.Readonly ==> wOK(l.writer)
     // the old head is durable before the new segment's files are created
